@@ -88,10 +88,37 @@ def nesting_pair(c):
     return '?'
 
 
+def elseif_program(n):
+    """an IF block with n ELSEIF arms (each condition differs), with and without ELSE, nested once"""
+    def num(v):
+        return {'k': 'num', 't': 'I', 'v': v}
+
+    def var(nm):
+        return {'k': 'lv', 'n': nm, 'ix': [], 'fl': [], 't': 'I'}
+
+    def pr(v):
+        return {'k': 'print', 'items': [{'k': 'e', 'e': num(v)}]}
+
+    def chain(k, base, inner):
+        arms = [{'c': {'k': 'bin', 'o': 'eq', 'l': var('x%'), 'r': num(base)}, 'body': [pr(base)]}]
+        for a in range(k):
+            arms.append({'c': {'k': 'bin', 'o': 'eq', 'l': var('x%'), 'r': num(base + a + 1)}, 'body': [pr(base + a + 1)] + (inner if a == 0 else [])})
+        return {'k': 'if', 'arms': arms, 'els': [pr(99)] if k % 2 else [], 'hasels': bool(k % 2)}
+    main = [{'k': 'for', 'v': var('x%'), 'from': num(0), 'to': num(n + 2), 'step': num(1), 'hasstep': False, 'nextvar': False,
+             'body': [chain(n, 1, [chain(2, 20, [])] if n > 1 else [])]}]
+    return {'types': [], 'consts': [], 'shared': [], 'main': gen.flatten(main), 'procs': []}
+
+
 def _job(job):
     kind, payload, O = job
     if kind == 'gen':
         prog, text, ast, li = gen.generate_info(payload, size=10, depth=3, wide=True)
+    elif kind == 'elseif':
+        prog = elseif_program(payload)
+        u = gen.Unparser(prog)
+        text = u.text()
+        ast = gen.strip_for_tlc(prog)
+        li = u.lineinfo
     else:
         prog = c08.program_of(payload['shapes'], payload['sub'])
         u = gen.Unparser(prog)
@@ -154,6 +181,9 @@ def _run(ctx, work):
     for i in range(ctx.pick(40, 1500)):
         for O in ((0, 1, 2) if not ctx.quick() else (i % 3,)):
             jobs.append(('gen', ctx.seed * 100000 + 60000 + i, O))
+    for n in (1, 2, 3, 4):
+        for O in (0, 1, 2):
+            jobs.append(('elseif', n, O))
     res = par.pmap(_job, jobs, chunk=2)
     cases, metas, qcases = [], [], []
     for r in res:
